@@ -138,7 +138,16 @@ pub fn main(args: &crate::Args) {
         let (bytes, whole): (&[u8], &Obs) = if *ii == usize::MAX { (real.as_ref().unwrap(), real_whole.as_ref().unwrap()) } else { (&items[*ii].bytes, wholes[*ii].as_ref().unwrap()) };
         let want_trace = j % 11 == 0 || cuts.len() > 2;
         let r = feed(bytes, cuts, &[], want_trace && bytes.len() < 100_000);
-        (compare(whole, &r), r.trace)
+        let mut v = compare(whole, &r);
+        // the same history through the library's own read loop: a reader that returns short reads at the cuts
+        if v.is_none() {
+            v = match crate::feed::read_with_cuts(bytes, cuts) {
+                Ok(o) if &o == whole => None,
+                Ok(_) => Some(("read-differs".to_string(), "JxlImageBuilder::read on a reader with short reads at the cuts reports something else than on the whole buffer".to_string())),
+                Err(e) => Some((format!("read-error:{}", e.chars().take(40).collect::<String>()), format!("JxlImageBuilder::read on a reader with short reads at the cuts failed: {e}"))),
+            };
+        }
+        (v, r.trace)
     });
     for ((ii, cuts), (viol, trace)) in jobs.iter().zip(&results) {
         rep.eval();
@@ -161,7 +170,7 @@ pub fn main(args: &crate::Args) {
         }
     }
     rep.traces_validated = jobs.len() as u64;
-    rep.rule = "for every stream of the jxlw corpus (bare/container, single/multi-frame, single/multi-section, TOC permuted, aux boxes) EVERY 2-chunking (quick, streams over 1200 bytes: every cut in the first 400 bytes and in the 260 bytes from each frame offset, i.e. all headers and TOCs, the rest with a stride), every 3-chunking for streams up to 90 (quick) / 200 bytes, and fixed chunk sizes 1,2,3,5,7,64, plus cmyk_layers.jxl cut around every frame offset and at evenly spaced positions and in 4096/65537-byte chunks; unconsumed bytes re-offered, try_init after each chunk; oracle = same decoder reading the whole buffer (headers, frame count, offsets, aux data, completion flag, ICC, rendered sample bits). Distinct by (stream, cut set).".into();
+    rep.rule = "for every stream of the jxlw corpus (bare/container, single/multi-frame, single/multi-section, TOC permuted, aux boxes) EVERY 2-chunking (quick, streams over 1200 bytes: every cut in the first 400 bytes and in the 260 bytes from each frame offset, i.e. all headers and TOCs, the rest with a stride), every 3-chunking for streams up to 90 (quick) / 200 bytes, and fixed chunk sizes 1,2,3,5,7,64, plus cmyk_layers.jxl cut around every frame offset and at evenly spaced positions and in 4096/65537-byte chunks; unconsumed bytes re-offered, try_init after each chunk, and the same cut sets as short reads of a reader given to JxlImageBuilder::read; oracle = same decoder reading the whole buffer (headers, frame count, offsets, aux data, completion flag, ICC, rendered sample bits). Distinct by (stream, cut set).".into();
     rep.sample(json!({"item": items[1].name, "stream_hex": hex(&items[1].bytes), "cuts": [7]}));
     rep.sample(json!({"item": items.last().unwrap().name, "bytes": items.last().unwrap().bytes.len(), "cuts": [3, 40]}));
     rep.extra.insert("corpus_streams".into(), json!(items.len()));
